@@ -8,7 +8,7 @@ from typing import Dict, List, Optional, Set, Tuple
 
 from ..adi import BOOL_UNIVERSE, Interp, UnarySummary, Universe, class_universe, enum_universe
 from ..model import AnchorError, Program, dotted, last_attr, norm, parent, walk_no_nested
-from ..report import Check
+from ..report import Check, guard
 from .common import INTERNAL_VALUE_KINDS, SINGLETONS, calls_in, returns_of, value_universe
 
 # --------------------------------------------------------------------- R12.1
@@ -666,5 +666,5 @@ _old_run = run
 
 
 def run(prog: Program, chk: Check) -> None:  # noqa: F811
-    _old_run(prog, chk)
-    r12_5(prog, chk)
+    guard(chk, _old_run, prog, chk)
+    guard(chk, r12_5, prog, chk)
